@@ -133,4 +133,96 @@ theorem dbs_word_gen (x : UInt32) (raw : Bool) (n : Nat) :
     rw [← h]
     omega
 
+/-! ## accessor laws of the generated code itself
+
+These speak about the regenerated Go accessors directly (no hand-written model in between): each one-bit setter of
+`DescriptorFlags` sets exactly its own flag and leaves the other three flags as they were, for every word. -/
+
+theorem bne_zero_toNat (a : UInt16) : (a != 0) = (a.toNat != 0) := by
+  by_cases h : a = 0
+  · subst h; rfl
+  · have h' : a.toNat ≠ 0 := fun e => h (UInt16.toNat_inj.mp (by simpa using e))
+    rw [bne_iff_ne.mpr h, bne_iff_ne.mpr h']
+
+theorem getBit (y : UInt16) (k : Nat) (hk : k < 16) :
+    (((y >>> k.toUInt16) &&& 1) != 0) = y.toNat.testBit k := by
+  rw [bne_zero_toNat, UInt16.toNat_and, UInt16.toNat_shiftRight]
+  have h1 : (1 : UInt16).toNat = 1 := by decide
+  have hk' : k.toUInt16.toNat % 16 = k := by
+    simp only [Nat.toUInt16_eq, UInt16.toNat_ofNat']; omega
+  rw [h1, hk']
+  unfold Nat.testBit
+  rw [Nat.and_comm]
+
+theorem cc_bit (y : UInt16) : flagContentChecksum y = y.toNat.testBit 2 := getBit y 2 (by decide)
+theorem size_bit (y : UInt16) : flagSize y = y.toNat.testBit 3 := getBit y 3 (by decide)
+theorem bc_bit (y : UInt16) : flagBlockChecksum y = y.toNat.testBit 4 := getBit y 4 (by decide)
+theorem bi_bit (y : UInt16) : flagBlockIndependence y = y.toNat.testBit 5 := getBit y 5 (by decide)
+
+
+theorem n4 : (~~~(4 : UInt16)).toNat = 65531 := by decide
+theorem n8 : (~~~(8 : UInt16)).toNat = 65527 := by decide
+theorem n16 : (~~~(16 : UInt16)).toNat = 65519 := by decide
+theorem n32 : (~~~(32 : UInt16)).toNat = 65503 := by decide
+theorem c4 : (4 : UInt16).toNat = 4 := by decide
+theorem c8 : (8 : UInt16).toNat = 8 := by decide
+theorem c16 : (16 : UInt16).toNat = 16 := by decide
+theorem c32 : (32 : UInt16).toNat = 32 := by decide
+
+theorem tb_65531_2 : Nat.testBit 65531 2 = false := by decide
+theorem tb_65531_3 : Nat.testBit 65531 3 = true := by decide
+theorem tb_65531_4 : Nat.testBit 65531 4 = true := by decide
+theorem tb_65531_5 : Nat.testBit 65531 5 = true := by decide
+theorem tb_65527_2 : Nat.testBit 65527 2 = true := by decide
+theorem tb_65527_3 : Nat.testBit 65527 3 = false := by decide
+theorem tb_65527_4 : Nat.testBit 65527 4 = true := by decide
+theorem tb_65527_5 : Nat.testBit 65527 5 = true := by decide
+theorem tb_65519_2 : Nat.testBit 65519 2 = true := by decide
+theorem tb_65519_3 : Nat.testBit 65519 3 = true := by decide
+theorem tb_65519_4 : Nat.testBit 65519 4 = false := by decide
+theorem tb_65519_5 : Nat.testBit 65519 5 = true := by decide
+theorem tb_65503_2 : Nat.testBit 65503 2 = true := by decide
+theorem tb_65503_3 : Nat.testBit 65503 3 = true := by decide
+theorem tb_65503_4 : Nat.testBit 65503 4 = true := by decide
+theorem tb_65503_5 : Nat.testBit 65503 5 = false := by decide
+theorem tb_4_2 : Nat.testBit 4 2 = true := by decide
+theorem tb_4_3 : Nat.testBit 4 3 = false := by decide
+theorem tb_4_4 : Nat.testBit 4 4 = false := by decide
+theorem tb_4_5 : Nat.testBit 4 5 = false := by decide
+theorem tb_8_2 : Nat.testBit 8 2 = false := by decide
+theorem tb_8_3 : Nat.testBit 8 3 = true := by decide
+theorem tb_8_4 : Nat.testBit 8 4 = false := by decide
+theorem tb_8_5 : Nat.testBit 8 5 = false := by decide
+theorem tb_16_2 : Nat.testBit 16 2 = false := by decide
+theorem tb_16_3 : Nat.testBit 16 3 = false := by decide
+theorem tb_16_4 : Nat.testBit 16 4 = true := by decide
+theorem tb_16_5 : Nat.testBit 16 5 = false := by decide
+theorem tb_32_2 : Nat.testBit 32 2 = false := by decide
+theorem tb_32_3 : Nat.testBit 32 3 = false := by decide
+theorem tb_32_4 : Nat.testBit 32 4 = false := by decide
+theorem tb_32_5 : Nat.testBit 32 5 = true := by decide
+
+macro "bitlaw" : tactic => `(tactic| (
+  simp only [cc_bit, size_bit, bc_bit, bi_bit, setContentChecksum, setSize, setBlockChecksum, setBlockIndependence]
+  split <;> simp only [UInt16.toNat_or, UInt16.toNat_and, Nat.testBit_or, Nat.testBit_and, n4, n8, n16, n32, c4, c8, c16, c32,
+      tb_65531_2, tb_65531_3, tb_65531_4, tb_65531_5, tb_65527_2, tb_65527_3, tb_65527_4, tb_65527_5, tb_65519_2, tb_65519_3, tb_65519_4, tb_65519_5, tb_65503_2, tb_65503_3, tb_65503_4, tb_65503_5, tb_4_2, tb_4_3, tb_4_4, tb_4_5, tb_8_2, tb_8_3, tb_8_4, tb_8_5, tb_16_2, tb_16_3, tb_16_4, tb_16_5, tb_32_2, tb_32_3, tb_32_4, tb_32_5, Bool.and_true, Bool.and_false, Bool.or_false, Bool.or_true]
+    <;> simp_all))
+
+theorem get_set_cc (x : UInt16) (v : Bool) : flagContentChecksum (setContentChecksum x v) = v := by bitlaw
+theorem size_set_cc (x : UInt16) (v : Bool) : flagSize (setContentChecksum x v) = flagSize x := by bitlaw
+theorem bc_set_cc (x : UInt16) (v : Bool) : flagBlockChecksum (setContentChecksum x v) = flagBlockChecksum x := by bitlaw
+theorem bi_set_cc (x : UInt16) (v : Bool) : flagBlockIndependence (setContentChecksum x v) = flagBlockIndependence x := by bitlaw
+theorem cc_set_size (x : UInt16) (v : Bool) : flagContentChecksum (setSize x v) = flagContentChecksum x := by bitlaw
+theorem get_set_size (x : UInt16) (v : Bool) : flagSize (setSize x v) = v := by bitlaw
+theorem bc_set_size (x : UInt16) (v : Bool) : flagBlockChecksum (setSize x v) = flagBlockChecksum x := by bitlaw
+theorem bi_set_size (x : UInt16) (v : Bool) : flagBlockIndependence (setSize x v) = flagBlockIndependence x := by bitlaw
+theorem cc_set_bc (x : UInt16) (v : Bool) : flagContentChecksum (setBlockChecksum x v) = flagContentChecksum x := by bitlaw
+theorem size_set_bc (x : UInt16) (v : Bool) : flagSize (setBlockChecksum x v) = flagSize x := by bitlaw
+theorem get_set_bc (x : UInt16) (v : Bool) : flagBlockChecksum (setBlockChecksum x v) = v := by bitlaw
+theorem bi_set_bc (x : UInt16) (v : Bool) : flagBlockIndependence (setBlockChecksum x v) = flagBlockIndependence x := by bitlaw
+theorem cc_set_bi (x : UInt16) (v : Bool) : flagContentChecksum (setBlockIndependence x v) = flagContentChecksum x := by bitlaw
+theorem size_set_bi (x : UInt16) (v : Bool) : flagSize (setBlockIndependence x v) = flagSize x := by bitlaw
+theorem bc_set_bi (x : UInt16) (v : Bool) : flagBlockChecksum (setBlockIndependence x v) = flagBlockChecksum x := by bitlaw
+theorem get_set_bi (x : UInt16) (v : Bool) : flagBlockIndependence (setBlockIndependence x v) = v := by bitlaw
+
 end Lz4V.Props.Leaf
